@@ -20,7 +20,7 @@ func int64FromConst(v constant.Value) (int64, bool) {
 func returnsOf(fn *ssa.Function) []*ssa.Return {
 	var res []*ssa.Return
 	for _, b := range fn.Blocks {
-		if len(b.Instrs) == 0 {
+		if len(b.Instrs) == 0 || b == fn.Recover {
 			continue
 		}
 		if r, ok := b.Instrs[len(b.Instrs)-1].(*ssa.Return); ok {
